@@ -7,7 +7,7 @@ CONSTANTS
   MaxH = 100000
   MaxOC = 1
   MaxSC = 3
-  MaxEvents = 2
+  MaxEvents = 1
   Sizes = {1000}
   Durs = {3600}
   Timeouts = {300}
